@@ -108,7 +108,7 @@ def run(module, cfg, scratch, *, env=None, workers=None, args=(), timeout=3600, 
     cfg_path = os.path.join(meta, module + '.cfg')
     with open(cfg_path, 'w') as f:
         f.write(cfg)
-    cmd = ['java', '-XX:+UseParallelGC', '-Xmx6g']
+    cmd = ['java', '-XX:+UseParallelGC', '-Xmx6g', '-Djava.io.tmpdir=' + meta]     # TLC unpacks its standard modules there: nothing is left in /tmp
     if java_opts:
         cmd += list(java_opts)
     cmd += ['-cp', '/opt/veriftools/tla/tla2tools.jar:/opt/veriftools/tla/CommunityModules-deps.jar', 'tlc2.TLC',
